@@ -87,3 +87,18 @@ reg(Prop('C17', {'quick': 400, 'thorough': 6000}, {'quick': 100, 'thorough': 150
          nontrivial=nt_fault_fired, prefix_closed=False, extra=_c17_extra,
          assumptions=['SimFS models open/write/close/replace/remove for the virtual mount /simfs only; tempfile/os.open based implementations are not modelled',
                       'Latin-1 and cp1252 default encodings are emulated by SimFS; only C/POSIX and C.UTF-8 exist as real locales in the image']))
+
+
+RULE_C09 = ('one evaluation = one pipeline run: a writer (the library itself, or the foreign-writer stub that walks the '
+            'reference model) stores a complete score in SimFS, storage faults may rewrite the stored bytes, then '
+            'parse_musicxml + to_string; distinct = distinct op lists; non-trivial = a storage fault changed the stored '
+            'bytes, or the document came from the foreign writer and has >= 8 elements')
+
+
+def nt_c09(main):
+    s = main['stats']
+    return any(k.startswith('fault.disk.') and not k.endswith('.noop') for k in s) or s.get('c09.documents.foreign', 0) > 0
+
+
+reg(Prop('C09', {'quick': 3000, 'thorough': 40000}, {'quick': 100, 'thorough': 1500}, RULE_C09,
+         cfg={'quick': {'max_size': 30}, 'thorough': {'max_size': 60}}, nontrivial=nt_c09))
